@@ -396,7 +396,20 @@ def phase_correction(d, ctx):
     D = d.int(2, 6)
     rng = d.rng()
     w = gen.cnormal(rng, (*lead, F, D)) * 10 ** rng.uniform(-3, 3, size=(*lead, F, 1))
-    special = d.choice(['none', 'none', 'zero-bin', 'orthogonal', 'list-input'])
+    special = d.choice(['none', 'none', 'zero-bin', 'orthogonal', 'list-input',
+                        'nearly-orthogonal'])
+    if special == 'nearly-orthogonal':
+        # neighbouring bins whose inner product is 1e-12..1e-6 of the product
+        # of their norms: far above rounding (1e-16), so its phase is defined
+        f = d.int(1, F - 1)
+        prev = w[..., f - 1, :]
+        u = gen.cnormal(rng, (*lead, D))
+        pn = prev / np.linalg.norm(prev, axis=-1, keepdims=True)
+        u = u - pn * np.einsum('...d,...d->...', pn.conj(), u)[..., None]
+        c = 10 ** rng.uniform(-12, -6, size=(*lead, 1)) * \
+            np.exp(2j * np.pi * rng.uniform(size=(*lead, 1)))
+        w[..., f, :] = (u / np.linalg.norm(u, axis=-1, keepdims=True) + c * pn) * \
+            10 ** rng.uniform(-3, 3, size=(*lead, 1))
     if special == 'zero-bin':
         w[..., d.int(0, F - 1), :] = 0
     elif special == 'orthogonal':
@@ -420,7 +433,11 @@ def phase_correction(d, ctx):
         ip = np.einsum('fd,fd->f', o[1:].conj(), o[:-1])
         mag = np.abs(ip)
         scale = np.linalg.norm(o[1:], axis=-1) * np.linalg.norm(o[:-1], axis=-1)
-        ok = (np.abs(ip.imag) <= 1e-9 * scale + 1e-300) & (ip.real >= -1e-9 * scale)
+        # the rotation is computed from the inner product itself: its phase is
+        # exact up to the rounding of the D products (64 eps D |w_f||w_f-1|),
+        # however small the inner product is relative to the norms
+        noise = 64 * np.finfo(float).eps * D * scale
+        ok = (np.abs(ip.imag) <= 1e-9 * mag + noise + 1e-300) & (ip.real >= -noise)
         require(np.all(ok), 'consecutive-bins-not-phase-aligned',
                 f'idx={idx}: w_f^H w_f-1 = {ip[~ok][:2]}')
         # each bin is only rotated by a unit phasor
